@@ -19,7 +19,7 @@ import (
 )
 
 type Lookup struct {
-	Kind     string `json:"kind"` // err | notfound | mined | pending
+	Kind     string `json:"kind"`   // err | notfound | mined | pending
 	TxType   string `json:"txtype"` // dynamic | legacy
 	Nonce    uint64 `json:"nonce"`
 	GasPrice string `json:"gasprice"` // what tx.GasPrice() reports
@@ -35,6 +35,13 @@ type In struct {
 	SignOK     bool   `json:"sign_ok"`
 	SendOK     bool   `json:"send_ok"`
 	ChainID    uint64 `json:"chainid"`
+	// the target is itself a cancellation this client made earlier: a transaction with the caps of
+	// Orig was sent through the client and cancelled while the node suggested PriorSuggest; the
+	// replacement the client submitted then is what the node now reports (Lookup is filled in from
+	// it by the harness) and what the measured call is asked to cancel
+	PriorCancel  bool    `json:"prior_cancel,omitempty"`
+	Orig         *Lookup `json:"orig,omitempty"`
+	PriorSuggest string  `json:"prior_suggest,omitempty"`
 }
 type Repl struct {
 	Nonce   uint64 `json:"nonce"`
@@ -52,7 +59,15 @@ type Obs struct {
 	Panic     bool   `json:"panic"`
 }
 
-func run(in In, rng *vh.Rng) (obs Obs) {
+func run(inp *In, rng *vh.Rng) (obs Obs) {
+	in := *inp
+	defer func() { *inp = in }()
+	var r1 *types.Transaction
+	capture := false
+	if in.PriorCancel {
+		in.Lookup = *in.Orig
+		in.Lookup.Kind = "pending"
+	}
 	obs.Submitted = []Repl{}
 	ks := vh.NewKeySigner(rng)
 	owner := ks.GetAddress()
@@ -78,6 +93,9 @@ func run(in In, rng *vh.Rng) (obs Obs) {
 			if recording && in.SuggestErr {
 				return nil, vh.ErrInjected
 			}
+			if capture {
+				return vh.Big(in.PriorSuggest), nil
+			}
 			if !recording {
 				return vh.Big(in.Lookup.Tip), nil
 			}
@@ -86,6 +104,9 @@ func run(in In, rng *vh.Rng) (obs Obs) {
 		mockevm.WithSendTransactionFunc(func(_ context.Context, tx *types.Transaction) error {
 			mu.Lock()
 			defer mu.Unlock()
+			if capture {
+				r1 = tx
+			}
 			if !recording {
 				return nil
 			}
@@ -136,6 +157,20 @@ func run(in In, rng *vh.Rng) (obs Obs) {
 		target = mk(in.Lookup.Nonce)
 		hash = target.Hash()
 	}
+	if in.PriorCancel {
+		mu.Lock()
+		capture = true
+		mu.Unlock()
+		if _, err := c.CancelTx(context.Background(), hash); err != nil || r1 == nil {
+			panic("prior cancel failed")
+		}
+		mu.Lock()
+		capture = false
+		mu.Unlock()
+		target, hash = r1, r1.Hash()
+		in.Lookup = Lookup{Kind: inp.Lookup.Kind, TxType: "dynamic", Nonce: r1.Nonce(), GasPrice: r1.GasPrice().String(),
+			FeeCap: r1.GasFeeCap().String(), Tip: r1.GasTipCap().String()}
+	}
 	mu.Lock()
 	recording = true
 	sendOK = in.SendOK
@@ -161,7 +196,8 @@ func main() {
 	for _, raw := range vh.Corpus() {
 		var in In
 		if json.Unmarshal(raw, &in) == nil {
-			out.Emit(in, run(in, rng))
+			o := run(&in, rng)
+			out.Emit(in, o)
 		}
 	}
 	if vh.OnlyReplay() {
@@ -202,6 +238,20 @@ func main() {
 		if in.Tracked && in.Lookup.TxType != "legacy" {
 			in.Tag += "+tracked"
 		}
-		out.Emit(in, run(in, rng))
+		o := run(&in, rng)
+		out.Emit(in, o)
+		if i%6 == 2 && in.Lookup.TxType == "dynamic" && fee.BitLen() < 200 && tip.BitLen() < 200 && sugg.BitLen() < 200 {
+			// cancel a cancellation: the same client first cancels a transaction of its own, the
+			// replacement stays pending, and is then cancelled in turn (fees may have moved meanwhile)
+			orig := in.Lookup
+			orig.Kind = "pending"
+			in2 := In{Tag: "cancel-of-a-cancellation", Tracked: true, PriorCancel: true, Orig: &orig, PriorSuggest: pick().String(),
+				Suggest: sugg.String(), SignOK: true, SendOK: true, ChainID: in.ChainID, Lookup: Lookup{Kind: []string{"pending", "pending", "mined"}[rng.Intn(3)]}}
+			if new(big.Int).SetBytes(nil).Cmp(vh.Big(in2.PriorSuggest)) == 0 || vh.Big(in2.PriorSuggest).BitLen() > 200 {
+				in2.PriorSuggest = "1000000000"
+			}
+			o2 := run(&in2, rng)
+			out.Emit(in2, o2)
+		}
 	}
 }
